@@ -8,6 +8,7 @@ theorem migrate_eq (s : State) (p : PodObj) (out inQ : Nat) :
     migratePod s p out inQ =
       (let asg := assignedIn s out p.id
        let s3 := removePodFrom s out p false
+       if existsIn s3 inQ p.id then s3 else
        let s4 := cacheAdd s3 inQ p
        let s5 := setAssigned s4 inQ p.id asg
        let s6 := updPodReq s5 inQ none (some p)
@@ -104,20 +105,24 @@ theorem migrateIn_good {s : State} {n : Nat} {p : PodObj} {q : Quota} (h : Good 
 structure MigPre (s : State) (p : PodObj) (out inQ : Nat) : Prop where
   nonneg : 0 ≤ p.req
   src : ∃ qo e, get? s out = some qo ∧ qo.max.isSome = true ∧ getPod qo.pods p.id = some e ∧ e.req = p.req ∧ e.np = p.np
-  dst : ∃ qi, get? s inQ = some qi ∧ qi.max.isSome = true ∧ (inQ ≠ out → getPod qi.pods p.id = none)
+  dst : ∃ qi, get? s inQ = some qi ∧ qi.max.isSome = true
 
 theorem migratePod_good {s : State} {p : PodObj} {out inQ : Nat} (h : Good s) (hpre : MigPre s p out inQ) :
     Good (migratePod s p out inQ) := by
   rw [migrate_eq]
   obtain ⟨qo, e, hqo, hmaxo, he, hreq, hnp⟩ := hpre.src
-  obtain ⟨qi, hqi, hmaxi, hni⟩ := hpre.dst
+  obtain ⟨qi, hqi, hmaxi⟩ := hpre.dst
   have h3 := removePodFrom_good h hpre.nonneg hqo hmaxo he hreq hnp false
   obtain ⟨q3, hq3, hmax3, hpods3⟩ := (removePodFrom_view (s := s) out p false inQ).2 qi hqi
-  have hne3 : getPod q3.pods p.id = none := by
-    rw [hpods3]
-    by_cases hio : inQ = out
-    · simp only [hio, if_true]; exact getPod_filter_self _ _
-    · simp only [hio, if_false]; exact hni hio
-  exact migrateIn_good h3 hpre.nonneg hq3 (by rw [hmax3]; exact hmaxi) hne3 _
+  simp only
+  by_cases hex : existsIn (removePodFrom s out p false) inQ p.id = true
+  · rw [if_pos hex]; exact h3
+  · rw [if_neg hex]
+    have hne3 : getPod q3.pods p.id = none := by
+      simp only [existsIn, hq3, podExists_eq] at hex
+      cases hg : getPod q3.pods p.id with
+      | none => rfl
+      | some e => simp [hg] at hex
+    exact migrateIn_good h3 hpre.nonneg hq3 (by rw [hmax3]; exact hmaxi) hne3 _
 
 end KoordVerif.C01
